@@ -87,6 +87,11 @@ func TestVerifC01ServerInterceptorTable(t *testing.T) {
 			for i := 0; i < perBad; i++ {
 				ran, err := call(flavour, method, c)
 				m.Count("calls_failing_"+flavour, 1)
+				if ran && err == breaker.ErrServiceUnavailable {
+					m.Violate("C01:reject:req-ran", desc, "call #%d ran the handler and still returned ErrServiceUnavailable", i)
+					bad = true
+					break
+				}
 				if !ran {
 					rej++
 					if first < 0 {
